@@ -69,7 +69,7 @@ package synchronizer
 //@   ensures [qc-valid] err == nil && qc != nil ==> cert.qcok(s.auth, *qc)
 //@   ensures [evidence] err == nil ==> evid(s.auth, syncInfo, view)
 //@   ensures [inv] cert.awf(s.auth)
-//@   modifies s.auth.blockchain.blocks[*], s.auth.blockchain.blockAtHeight[*], s.auth.blockchain.pendingFetch[*], s.auth.blockchain.eventLoop.handlers[*], alloc
+//@   modifies s.auth.blockchain.blocks[*], s.auth.blockchain.blockAtHeight[*], s.auth.blockchain.pendingFetch[*], s.auth.blockchain.eventLoop.handlers[*], trace(att), alloc
 
 // ---- interfaces used by the synchronizer (unknown code)
 //@ pure func ruleAuth(r TimeoutRuler) *cert.Authority
